@@ -345,7 +345,7 @@ var escaper = strings.NewReplacer("\\", "\\\\", "\"", "\\\"")
 // escapeString correctly escapes a snippet for printing.
 func escapeString(token string) string {
 	// check if token contains characters that need to be escaped
-	if strings.ContainsAny(token, "()\"\\\t\r\n ") {
+	if token == "" || strings.ContainsAny(token, "()\"\\\t\r\n ") {
 		// put the token in parenthesis and only escape \ and "
 		return fmt.Sprintf("\"%s\"", escaper.Replace(token))
 	}
